@@ -33,6 +33,8 @@ type pFilterSpec struct {
 	Replace map[string]*pMsgSpec `json:"replace,omitempty"`
 	Pause   []string             `json:"pause,omitempty"`
 	Panic   []string             `json:"panic,omitempty"`
+	// drop only the first n messages of a key (a "are you sure?" filter that gives in later)
+	DropFirst map[string]int `json:"drop_first,omitempty"`
 }
 
 type pOpts struct {
